@@ -52,8 +52,9 @@ LONG_DESC = (
     "element is good for.\nSecond line: it keeps going with more and more words until the text has to be "
     "wrapped several times on a narrow terminal.\nThird line, the last one."
 )
-DESC_POOL = [None, SHORT_DESC, LONG_DESC]
-CMD_DESC_POOL = ["", SHORT_DESC, LONG_DESC]
+BRACE_DESC = "Writes {id}.json (a {} placeholder, {0} and }{ are plain text here)"
+DESC_POOL = [None, SHORT_DESC, LONG_DESC, BRACE_DESC]
+CMD_DESC_POOL = ["", SHORT_DESC, LONG_DESC, BRACE_DESC]
 HELP_POOL = [None, "Short help of {script_name}", "Help, paragraph one.\n\nParagraph two is rather long: " + LONG_DESC]
 
 # ---------------------------------------------------------------------------------------------- flag kinds
@@ -92,8 +93,8 @@ def option_kinds():
 
 def _default_pool(multi):
     if multi:
-        return [None, [], ["a"], ["a", "b c"], [1, 2], [1.5], [True, False]]
-    return [None, "text", "two words", 7, -3, 2.5, True, False, ""]
+        return [None, [], ["a"], ["a", "b c"], [1, 2], [1.5], [True, False], ["{x}"]]
+    return [None, "text", "two words", 7, -3, 2.5, True, False, "", "{id}.json"]
 
 
 class Deck:
